@@ -271,6 +271,13 @@ def run(spec):
             # iteration are taken within rounding distance of their thresholds (rounding-level different histories flip them)
             out.count("skipped_rounding_sensitive_step")
             continue
+        if not (e <= XT) and npairs >= 1 and probes.rounding_sensitive(lambda c2: probes.run_min(P, dict(base, maxiter=k + 1), checkpoint=c2, x0=np.array(ck.x, dtype=float, copy=True)),
+                                                                   ck, r1.result.x, XT, seed=int(P.spec["seed"]) + k, trials=6):
+            # the restart's own result moves by more than the tolerance when the pairs of the checkpoint are perturbed in their last
+            # digits: a discrete decision of the next iteration (which interpolation case of the line search, which variable blocks
+            # first) sits within rounding of its threshold
+            out.count("skipped_rounding_sensitive_step")
+            continue
         if not (e <= XT):
             out.violate("continuation_differs", f"{where}: iterate {k + 1} after restart differs from the uninterrupted run by {e:.3e} relative "
                         f"(the step itself is {moved:.3e}); restart x={np.asarray(r1.result.x).tolist()} uninterrupted x={np.asarray(u.result.x).tolist()}",
